@@ -18,15 +18,66 @@ Definition all_gets (h w : nat) : list (nat * nat) := positions (S h) (S w).
 Definition flat (o : option (list N)) : list N :=
   match o with Some l => 1%N :: l | None => [0%N] end.   (* leading 0 = panicked *)
 
+(* ---------- iterator programs: one iterator driven through a sequence of calls ----------
+   INth j = it.nth(j) (also it.by_ref().skip(j).next(), which std maps to nth(j)); INext = it.next();
+   ITake j = it.by_ref().take(j) collected; IPos = it.position(); IIdx = it.index();
+   IWith = it.with_position() (from then on items come with their position; position()/index()/nth are
+   not asked any more); IRest = everything that is left.  The interpreter is parameterised by what the
+   iterator yields at index k and which position it reports there: instantiated with the model of
+   SurfaceIter / SurfaceMutIter on one side and with the plain-matrix window on the other. *)
+Inductive istep := INth (j : nat) | INext | ITake (j : nat) | IPos | IIdx | IWith | IRest.
+
+Section IterProg.
+  Variables (item_at : nat -> option N) (pos_at : nat -> nat * nat) (total : nat).
+
+  (* up to `fuel` calls of next(): new index, number of items, what was yielded (flattened) *)
+  Fixpoint take_run (wp : bool) (fuel idx : nat) : nat * nat * list N :=
+    match fuel with
+    | O => (idx, O, [])
+    | S f =>
+        match item_at idx with
+        | None => (S idx, O, [])
+        | Some x =>
+            let '(i', n, l) := take_run wp f (S idx) in
+            (i', S n, (if wp then [N.of_nat (fst (pos_at idx)); N.of_nat (snd (pos_at idx)); x] else [x]) ++ l)
+        end
+    end.
+
+  Fixpoint run_prog (prog : list istep) (idx : nat) (wp : bool) : list N :=
+    match prog with
+    | [] => []
+    | INth j :: r =>
+        if wp then run_prog r idx wp
+        else enc_opt (item_at (idx + j)) :: run_prog r (S (idx + j)) wp
+    | INext :: r =>
+        (if wp then match item_at idx with
+                    | Some x => [1%N; N.of_nat (fst (pos_at idx)); N.of_nat (snd (pos_at idx)); x]
+                    | None => [0%N]
+                    end
+         else [enc_opt (item_at idx)]) ++ run_prog r (S idx) wp
+    | ITake j :: r =>
+        if wp then run_prog r idx wp
+        else let '(i', n, l) := take_run false j idx in N.of_nat n :: l ++ run_prog r i' wp
+    | IPos :: r =>
+        if wp then run_prog r idx wp
+        else N.of_nat (fst (pos_at idx)) :: N.of_nat (snd (pos_at idx)) :: run_prog r idx wp
+    | IIdx :: r => if wp then run_prog r idx wp else N.of_nat idx :: run_prog r idx wp
+    | IWith :: r => run_prog r idx true
+    | IRest :: r =>
+        let '(i', n, l) := take_run wp (S total) idx in N.of_nat n :: l ++ run_prog r i' wp
+    end.
+End IterProg.
+
 (* what the implementation is asked for, computed with the model of Shape *)
 Record obs := mkObs {
   o_shape : list N; o_empty : bool; o_iter : list N; o_gets : list N; o_muts : list N;
   o_fill : list N; o_fillwith : list N; o_insert : list N; o_map : list N;
-  o_clear : list N; o_getm : list N; o_set : list N; o_nth : list N; o_wpos : list N }.
+  o_clear : list N; o_getm : list N; o_set : list N; o_nth : list N; o_wpos : list N;
+  o_prog : list N; o_progm : list N }.
 
 Definition SETV : N := 4242%N.
 
-Definition model_obs (H W : nat) (ops : list vop) (ir ic : N) (items : list N) (nk : nat) : obs :=
+Definition model_obs (H W : nat) (ops : list vop) (ir ic : N) (items : list N) (nk : nat) (prog : list istep) : obs :=
   let data := init_data H W in
   let sh := apply_chain (of_size H W) ops in
   {| o_shape := map nn [sh_start sh; sh_end sh; sh_width sh; sh_height sh; sh_rstride sh; sh_cstride sh];
@@ -48,7 +99,12 @@ Definition model_obs (H W : nat) (ops : list vop) (ir ic : N) (items : list N) (
      (* it = iter(); a = it.nth(nk); p = it.position(); b = it.next() *)
      o_nth := [enc_opt (iter_at sh data nk); nn (fst (iter_position sh (S nk))); nn (snd (iter_position sh (S nk)));
                enc_opt (iter_at sh data (S nk))];
-     o_wpos := flat_map (fun e => let '(r, c, v) := e in [nn r; nn c; v]) (pos_iter sh data) |}.
+     o_wpos := flat_map (fun e => let '(r, c, v) := e in [nn r; nn c; v]) (pos_iter sh data);
+     (* the program on iter(): items are the values read; on iter_mut(): items are the offsets of the
+        references handed out, + 1 (the backing vector is [1; 2; ..], so both read the same numbers) *)
+     o_prog := run_prog (iter_at sh data) (iter_position sh) (sh_height sh * sh_width sh) prog 0 false;
+     o_progm := run_prog (fun k => option_map (fun o => nn (S o)) (mut_at sh (length data) k)) (iter_position sh)
+                         (sh_height sh * sh_width sh) prog 0 false |}.
 
 (* the same observations computed from the window a plain matrix would give *)
 Definition win_cells (W : nat) (w : window) : list nat :=
@@ -67,9 +123,9 @@ Fixpoint overwrite (data : list N) (cells : list nat) (vals : list N) : list N :
 Record sobs := mkSobs {
   s_dims : nat * nat; s_empty : bool; s_iter : list N; s_gets : list N; s_muts : list N; s_fill : list N;
   s_fillwith : list N; s_insert : list N; s_map : list N; s_clear : list N; s_set : list N;
-  s_nth : list N; s_wpos : list N }.
+  s_nth : list N; s_wpos : list N; s_prog : list N }.
 
-Definition spec_obs (H W : nat) (ops : list vop) (ir ic : N) (items : list N) (nk : nat) : sobs :=
+Definition spec_obs (H W : nat) (ops : list vop) (ir ic : N) (items : list N) (nk : nat) (prog : list istep) : sobs :=
   let data := init_data H W in
   let w := win_chain (win_root H W) ops in
   let cells := win_cells W w in
@@ -105,7 +161,12 @@ Definition spec_obs (H W : nat) (ops : list vop) (ir ic : N) (items : list N) (n
                nn (if S nk <? total then S nk / w_w w else w_h w);
                nn (if S nk <? total then S nk mod w_w w else 0);
                at_k (S nk)];
-     s_wpos := flat_map (fun pv => [nn (fst (fst pv)); nn (snd (fst pv)); snd pv]) (combine ps vals) |}.
+     s_wpos := flat_map (fun pv => [nn (fst (fst pv)); nn (snd (fst pv)); snd pv]) (combine ps vals);
+     (* an iterator at index k yields the k-th cell of the window in row-major order, reports the position
+        (k / width, k mod width), and is at (height, 0) with nothing to yield from height*width on; reading
+        the cell gives its value, which is also its root index + 1 *)
+     s_prog := run_prog (fun k => if k <? total then Some (nth_default_N vals k) else None)
+                        (fun k => if k <? total then (k / w_w w, k mod w_w w) else (w_h w, 0)) total prog 0 false |}.
 
 (* frame condition: same length, and every element that is not a window cell is unchanged *)
 Fixpoint frame_from (k : nat) (cells : list nat) (data d : list N) : bool :=
@@ -129,19 +190,20 @@ Definition insert_ok (H W : nat) (ops : list vop) (ir ic : N) (expected ins : li
   else nlist_eqb expected ins.
 
 Inductive c07_case :=
-| S07 (H W : nat) (ops : list vop) (ir ic : N) (items : list N) (nk : nat)
-      (shape : list N) (empty : bool) (it gets muts fil filw ins mp clr getm setv nthv wpos : list N).
+| S07 (H W : nat) (ops : list vop) (ir ic : N) (items : list N) (nk : nat) (prog : list istep)
+      (shape : list N) (empty : bool) (it gets muts fil filw ins mp clr getm setv nthv wpos progr progm : list N).
 
 Definition c07_check (c : c07_case) : bool * bool :=
   match c with
-  | S07 H W ops ir ic items nk shape empty it gets muts fil filw ins mp clr getm setv nthv wpos =>
-      let m := model_obs H W ops ir ic items nk in
-      let sp := spec_obs H W ops ir ic items nk in
+  | S07 H W ops ir ic items nk prog shape empty it gets muts fil filw ins mp clr getm setv nthv wpos progr progm =>
+      let m := model_obs H W ops ir ic items nk prog in
+      let sp := spec_obs H W ops ir ic items nk prog in
       ( nlist_eqb (o_shape m) shape && Bool.eqb (o_empty m) empty && nlist_eqb (o_iter m) it
         && nlist_eqb (o_gets m) gets && nlist_eqb (o_muts m) muts && nlist_eqb (o_fill m) fil
         && nlist_eqb (o_fillwith m) filw && nlist_eqb (o_insert m) ins && nlist_eqb (o_map m) mp
         && nlist_eqb (o_clear m) clr && nlist_eqb (o_getm m) getm && nlist_eqb (o_set m) setv
-        && nlist_eqb (o_nth m) nthv && nlist_eqb (o_wpos m) wpos,
+        && nlist_eqb (o_nth m) nthv && nlist_eqb (o_wpos m) wpos
+        && nlist_eqb (o_prog m) progr && nlist_eqb (o_progm m) progm,
         (* property: dimensions, emptiness, reads (get, get_mut, iter, nth, positions), handed-out
            offsets and every mutation (fill, fill_with, clear, set, insert, map) agree with the window
            of a plain matrix; no operation panicked except where the window semantics say so *)
@@ -150,7 +212,11 @@ Definition c07_check (c : c07_case) : bool * bool :=
         && nlist_eqb (s_muts sp) muts && nlist_eqb (s_fill sp) fil && nlist_eqb (s_fillwith sp) filw
         && insert_ok H W ops ir ic (s_insert sp) ins && nlist_eqb (s_map sp) mp
         && nlist_eqb (s_clear sp) clr && nlist_eqb (s_gets sp) getm && nlist_eqb (s_set sp) setv
-        && nlist_eqb (s_nth sp) nthv && nlist_eqb (s_wpos sp) wpos )
+        && nlist_eqb (s_nth sp) nthv && nlist_eqb (s_wpos sp) wpos
+        (* one iterator driven through a program (next / nth / take / position / index, then with_position and
+           on): exactly the remaining cells of the window, each once, row-major, with their positions; the
+           mutable iterator hands out the references to exactly those cells *)
+        && nlist_eqb (s_prog sp) progr && nlist_eqb (s_prog sp) progm )
   end.
 
 Definition c07_report := report c07_check.
